@@ -231,7 +231,7 @@ func (c antispoofCase) nonTrivial() bool {
 func TestPropAntispoofEncoding(t *testing.T) {
 	e := newAntispoofEnv(t)
 	defer e.close()
-	vstat.Checks(800, 16000)
+	vstat.Checks(2000, 30000)
 	rapid.Check(t, func(rt *rapid.T) {
 		c := genAntispoof(rt)
 		runAntispoof(rt, e, c)
